@@ -39,7 +39,13 @@ const c06Table = `route add rrA rr.com/ http://a:80/
 route add rrB rr.com/ http://b:80/
 route add rrC rr.com/ http://c:80/
 route add rd rd.com/ https://to.com/$path opts "redirect=301"
-route add rd2 rd.com/ https://to2.com/$path opts "redirect=302"`
+route add rd2 rd.com/ https://to2.com/$path opts "redirect=302"
+route add rdb rd2.com/ https://to3.com$path opts "redirect=301"
+route add rdc rd3.com/ https://$host$path opts "redirect=308"
+route add rdd rd4.com/ http://$host/new$path?x=1 opts "redirect=307 strip=/g"`
+
+// the documented forms of a redirect target that mention the request
+var c06RedirectHosts = []string{"rd.com", "rd2.com", "rd3.com"}
 
 func TestVerifC06Trace(t *testing.T) {
 	tbl, err := newTableFromText(c06Table)
@@ -78,7 +84,7 @@ func TestVerifC06Trace(t *testing.T) {
 				case 1:
 					path := fmt.Sprintf("/g%d/%d", g, i)
 					tr.Add(map[string]any{"ev": "Inv", "g": g, "op": "redirect", "arg": path})
-					tg := tbl.Lookup(c06Req("rd.com", path), "", rrPicker, prefixMatcher, lgc, false)
+					tg := tbl.Lookup(c06Req(c06RedirectHosts[(i/3+g)%len(c06RedirectHosts)], path), "", rrPicker, prefixMatcher, lgc, false)
 					res := "nil"
 					if tg != nil && tg.RedirectURL != nil {
 						res = tg.RedirectURL.Path
@@ -164,7 +170,8 @@ func TestVerifC06Stress(t *testing.T) {
 	for i := 0; i < 40; i++ {
 		lines = append(lines, fmt.Sprintf("route add g%d *.h%d.com/ http://t%d:80/", i, i, i))
 	}
-	lines = append(lines, `route add rd rd.com/ https://to.com/$path opts "redirect=301"`)
+	lines = append(lines, `route add rd rd.com/ https://to.com/$path opts "redirect=301"`,
+		`route add rdb rd2.com/ https://to.com$path opts "redirect=301"`, `route add rdc rd3.com/ https://to.com/new$path opts "redirect=301"`)
 	text := strings.Join(lines, "\n")
 	mk := func() Table {
 		tb, err := newTableFromText(text)
@@ -208,15 +215,17 @@ func TestVerifC06Stress(t *testing.T) {
 						"lookup of x%d.h%d.com returned %v, want service g%d", g, h, tg, h)
 				}
 				path := fmt.Sprintf("/req-%d-%d", g, i)
-				tg = GetTable().Lookup(c06Req("rd.com", path), "", rrPicker, prefixMatcher, gc, false)
+				form := (i + g) % 3
+				tg = GetTable().Lookup(c06Req([]string{"rd.com", "rd2.com", "rd3.com"}[form], path), "", rrPicker, prefixMatcher, gc, false)
 				atomic.AddInt64(&lookups, 1)
 				loc := ""
 				if tg != nil && tg.RedirectURL != nil {
 					loc = tg.RedirectURL.String()
 				}
-				if loc != "https://to.com"+path {
-					verifx.Fail(map[string]any{"g": g, "i": i}, map[string]any{"sub": "stress", "clause": "redirect-own"},
-						"request %s received Location %q, its own is %q", path, loc, "https://to.com"+path)
+				own := "https://to.com" + []string{"", "", "/new"}[form] + path
+				if loc != own {
+					verifx.Fail(map[string]any{"g": g, "i": i}, map[string]any{"sub": "stress", "clause": "redirect-own", "form": form},
+						"request %s received Location %q, its own is %q", path, loc, own)
 				}
 			}
 		}(g)
